@@ -13,7 +13,7 @@ from geophires_x import Economics as E
 from geophires_x.OptionList import EndUseOptions, PlantType, EconomicModel
 
 ID = 'C01'
-FUNCTIONS = ['geophires_x.Economics:CalculateLCOELCOHLCOC']
+FUNCTIONS = ['geophires_x.Economics:CalculateLCOELCOHLCOC', 'geophires_x.Economics:Economics.Calculate', 'geophires_x.EconomicsAddOns:EconomicsAddOns.Calculate']
 UNIT_TIMEOUT = {'quick': 200, 'thorough': 1500}
 LS = {'quick': [1, 2, 3], 'thorough': [1, 2, 3, 4, 5, 6, 8]}
 META = {
@@ -21,7 +21,10 @@ META = {
                    'plant type x lifetime L in the bound; all cost, rate and yearly energy inputs are independent symbolic reals '
                    '(each year its own variable). The returned (LCOE, LCOH, LCOC) terms are compared by z3 (nonlinear real '
                    'arithmetic) with an independently written reference (DESIGN Appendix A); unsat of "implementation != '
-                   'reference" means equality for every real-valued input with non-zero denominators.',
+                   'reference" means equality for every real-valued input with non-zero denominators. Level B: the real '
+                   'Economics.Calculate (with and without the real EconomicsAddOns.Calculate) runs on a real Model with capital cost, O&M, '
+                   'the yearly energy series and the add-on energy symbolic; the LCOE/LCOH/LCOC it finally reports are proved equal to the '
+                   'reference formula applied to the quantities the run reports (post-add-on energy series, CCap, Coam, averaged costs).',
     'bounds': {'quick': {'L': LS['quick'], 'configurations': '3 economic models x 8 end-use options x 9 plant types'},
                'thorough': {'L': LS['thorough'], 'configurations': '3 economic models x 8 end-use options x 9 plant types'}},
     'outside': ['lifetimes outside the listed L', 'IEEE rounding (claims are over the reals)', 'AGS/CLGS economic model 4, SUTRA, S-DAC-GT',
@@ -204,7 +207,126 @@ def units(tier, seed):
     for n in LS[tier]:
         for em in (EconomicModel.FCR, EconomicModel.STANDARDIZED_LEVELIZED_COST, EconomicModel.BICYCLE):
             us.append({'em': em.value, 'L': n})
+    for (kind, em, L, K, addon) in CALC_BOUNDS[tier]:
+        us.append({'harness': 'calculate', 'kind': kind, 'em': em, 'L': L, 'K': K, 'addon': addon})
     return us
+
+
+# ---- level B: the value Economics.Calculate finally reports, with and without add-ons -------------------------------------
+CALC_BOUNDS = {
+    'quick': [(k, em, 2, 1, a) for k in ('electricity', 'direct-use', 'cogen-topping') for em in (1, 2, 3) for a in (0, 1)],
+    'thorough': [(k, em, L, K, a) for k in ('electricity', 'direct-use', 'chiller', 'heat-pump', 'district-heating', 'cogen-topping', 'cogen-bottoming', 'cogen-parallel')
+                 for em in (1, 2, 3) for (L, K, a) in ((2, 1, 0), (2, 1, 1), (3, 2, 2))],
+}
+META['bounds']['quick']['level B (kind, economic model, L, K, add-ons)'] = [list(x) for x in CALC_BOUNDS['quick']]
+META['bounds']['thorough']['level B (kind, economic model, L, K, add-ons)'] = [list(x) for x in CALC_BOUNDS['thorough']]
+
+
+def calc_spec(cfg):
+    from . import c04
+    L = cfg['L']
+    s = [('economics.totalcapcost', 'real', 0, 1000), ('economics.oamtotalfixed', 'real', 0, 100)]
+    # the rate inputs of the selected model are symbolic too (concrete doubles would make the two sides differ by float rounding of constants)
+    rates = {1: ['FCR', 'inflrateconstruction'], 2: ['discountrate', 'inflrateconstruction'],
+             3: ['FIB', 'BIR', 'CTR', 'EIR', 'RINFL', 'PTR', 'RITC', 'GTR', 'inflrateconstruction']}[cfg['em']]
+    s += [(f'economics.{r}', 'real', 0.001, 0.5) for r in rates]
+    for p in c04.products_of(cfg['kind']):
+        s += [(f'surfaceplant.{c04.PRODUCTS[p]}[{i}]', 'real', None, None) for i in range(L)]
+    for j in range(cfg.get('addon', 0)):
+        s += [(f'addeconomics.AddOnElecGainedPerYear[{j}]', 'real', None, None), (f'addeconomics.AddOnHeatGainedPerYear[{j}]', 'real', None, None)]
+    return s
+
+
+def calc_drive(cfg, vals, symbolic):
+    from . import c04
+    from .. import econ
+    m = c04.prepared(cfg).reset()
+    v = dict(vals)
+    v.update({'economics.totalcapcost.Valid': True, 'economics.oamtotalfixed.Valid': True})
+    if cfg.get('addon') and symbolic:
+        for arr in ('TotalkWhProduced', 'NetkWhProduced', 'HeatkWhProduced'):
+            cur = getattr(m.surfaceplant, arr).value
+            if hasattr(cur, '__len__') and not isinstance(cur, core.SymArray):
+                getattr(m.surfaceplant, arr).value = core.as_symarray([float(x) for x in cur])
+    econ.install(m, v)
+    econ.run_econ(m, symbolic=symbolic)
+    return m
+
+
+def reported(m, n):
+    """the quantities the run reports, in the shape the reference formula takes."""
+    e, sp = m.economics, m.surfaceplant
+    v = {nm: getattr(e, nm).value for nm in SC}
+
+    def series(x):
+        try:
+            x = list(x)
+        except TypeError:
+            x = [x] * n
+        return (x + [0.0] * n)[:n] if len(x) < n else x[:n]
+    for a in ARR_SP:
+        v[a] = series(getattr(sp, a).value) if hasattr(sp, a) else [0.0] * n
+    v['annualngcost'] = series(e.annualngcost.value)
+    v['annual_heating_demand'] = sp.annual_heating_demand.value if hasattr(sp, 'annual_heating_demand') else 0.0
+    v['electricity_cost_to_buy'] = sp.electricity_cost_to_buy.value
+    return v
+
+
+def calc_concrete(cfg, inputs, only=None):
+    from .. import econ
+    spec = calc_spec(cfg)
+    vals = econ.concrete_vals(spec, inputs)
+    n = cfg['L']
+    try:
+        m = calc_drive(cfg, vals, symbolic=False)
+        ref = oracle(reported(m, n), EconomicModel.from_int(cfg['em']), EndUseOptions.from_int(cfg['eu']), PlantType.from_int(cfg['pt']), n)
+    except ZeroDivisionError:
+        return False, {'note': 'division by zero in floats'}
+    e = m.economics
+    out = [float(e.LCOE.value), float(e.LCOH.value), float(e.LCOC.value)]
+    ref = [float(x) for x in ref]
+    bad = [nm for nm, o, r in zip(('LCOE', 'LCOH', 'LCOC'), out, ref) if not harness.close(o, r, rel=1e-7) and (only is None or nm == only)]
+    return bool(bad), {'reported(LCOE,LCOH,LCOC)': out, 'reference on the reported quantities': ref, 'differs_in': bad,
+                       'reported energy': {a: [float(x) for x in getattr(m.surfaceplant, a).value][:n] for a in ('NetkWhProduced', 'HeatkWhProduced')}}
+
+
+def run_calc_unit(unit):
+    from . import c04
+    from .. import econ
+    cfg = c04.cfg_of(unit['kind'], unit['L'], unit['K'], False, addon=unit['addon'], em=unit['em'])
+    cfg['harness'] = 'calculate'
+    tmo = 20000 if unit['tier'] == 'quick' else 90000
+    n = cfg['L']
+    spec = calc_spec(cfg)
+    log = harness.UnitLog(cfg)
+    c04.prepared({k: v for k, v in cfg.items() if k != 'harness'})
+    em, eu, pt = EconomicModel.from_int(cfg['em']), EndUseOptions.from_int(cfg['eu']), PlantType.from_int(cfg['pt'])
+
+    def fn():
+        vals, zv = econ.make_symbolic(spec)
+        m = calc_drive(cfg, vals, symbolic=True)
+        e = m.economics
+        return zv, (e.LCOE.value, e.LCOH.value, e.LCOC.value), oracle(reported(m, n), em, eu, pt, n)
+    k = 0
+    for pr in core.explore(fn, max_paths=4000):
+        log.path(pr)
+        k += 1
+        if pr.error is not None:
+            raise pr.error
+        if pr.aborted:
+            continue
+        zv, out, ref = pr.value
+        c = pr.ctx
+        if k <= 30 or k % 20 == 0:
+            harness.reachable(log, c, 3000)
+        for nm, o, rf in zip(('LCOE', 'LCOH', 'LCOC'), out, ref):
+            lo, lr = core.lift(o), core.lift(rf)
+            d = lo - lr
+            robust = z3.And(z3.Or(d > 0.01 * lr, d < -0.01 * lr), lr > 0.01, lr < 1000)
+            harness.discharge(log, c, f'{nm} finally reported by Economics.Calculate == reference formula on the reported quantities', lo == lr, zv,
+                              lambda inp, nm=nm: calc_concrete(cfg, inp, only=nm), timeout_ms=tmo, robust=robust, sample=(k == 1),
+                              desc=f'{nm} [{cfg["kind"]} em={cfg["em"]} L={n} K={cfg["K"]} add-ons={cfg.get("addon", 0)}]')
+    yield log.result()
 
 
 EXAMPLE = {'CCap': 70.0, 'Coam': 2.5, 'CAPEX_heat_electricity_plant_ratio': 0.6, 'FCR': 0.05, 'inflrateconstruction': 0.05,
@@ -222,6 +344,9 @@ def example_inputs(n, scale=1.0):
 
 
 def run_unit(unit):
+    if unit.get('harness') == 'calculate':
+        yield from run_calc_unit(unit)
+        return
     em, n = EconomicModel(unit['em']), unit['L']
     tmo = 20000 if unit['tier'] == 'quick' else 120000
     for eu in EndUseOptions:
@@ -284,4 +409,6 @@ def _selfcheck(log, cfg, out, zvars, ex):
 
 
 def replay(cex):
+    if cex['config'].get('harness') == 'calculate':
+        return calc_concrete(cex['config'], cex['inputs'])
     return concrete(cex['config'], cex['inputs'])
